@@ -193,6 +193,12 @@ func c43(r *core.Run) {
 	errDiscipline(r, "R3.errdrop", "encoding/json functions", func(fn *ssa.Function) bool { return fn.Pkg != nil && fn.Pkg.Pkg.Path() == mod+"/encoding/json" }, 12)
 	fixedPointSign(r, "R4.fixsign")
 	r.Floor("R4.fixsign", 3)
+	// R5 the kind of an entitlement set is carried, not assumed: every call of cadence.NewEntitlementSetAuthorization (and every
+	// literal of the type) in the codecs and the export path takes its kind from the value being converted (ORIGIN leaves pinned)
+	operandOrigins(r, "R5.setkind", "c43_setkind_origins", func(o *types.Func) bool {
+		return o != nil && o.Name() == "NewEntitlementSetAuthorization" && o.Pkg() != nil && o.Pkg().Path() == mod
+	}, "the kind (conjunction / disjunction) handed to the entitlement-set constructor no longer comes from the decoded or converted value: one codec yields a different authorization than the other")
+	r.Floor("R5.setkind", 2)
 }
 
 // fixedPointSign: signed fixed-point formatters emit the sign of values in (−1, 0): the integer part of such a value is 0
